@@ -75,7 +75,8 @@ def cold_table(scratch, binary, ks):
 def run_mode(prop, mode, tier, scratch, record, level):
     t0 = time.time()
     tl = vlib.tlc_parallel(scratch, [("CallHistory", "CallHistory_mc.cfg", 4)], timeout=600)
-    for cfg, inv in (("CallHistory_dev_reset.cfg", "NoStaleRead"), ("CallHistory_dev_alias.cfg", "ResultsStable")):
+    for cfg, inv in (("CallHistory_dev_reset.cfg", "NoStaleRead"), ("CallHistory_dev_payload.cfg", "NoStaleRead"),
+                     ("CallHistory_dev_alias.cfg", "ResultsStable")):
         dev = vlib.run_tlc(scratch, "CallHistory", cfg, workers=2, timeout=300)
         if not any(inv + " is violated" in e for e in dev.errors):
             raise vlib.Infra("%s did not produce its counterexample: %s" % (cfg, dev.errors[:3]))
